@@ -3,6 +3,7 @@ mod abs;
 mod conn;
 mod frames;
 mod net;
+mod values;
 mod wire;
 
 use std::{
@@ -251,6 +252,9 @@ fn main() {
         "wire-fuzz" => wire::cmd_wire_fuzz(&a),
         "wire-cross" => wire::cmd_wire_cross(&a),
         "wire-dec" => wire::cmd_wire_dec(&a),
+        "values-replay" => values::cmd_values_replay(&a),
+        "values-trace" => values::cmd_values_trace(&a),
+        "values-rerun" => values::cmd_values_rerun(&a),
         "net-trace" => cmd_net_trace(&a),
         _ => {
             eprintln!("usage: lfsverif <command> ...");
